@@ -1,3 +1,4 @@
 fn main() {
+    println!("cargo:rustc-check-cfg=cfg(amiquip_verif)");
     built::write_built_file().expect("Failed to acquire build-time information");
 }
